@@ -33,12 +33,6 @@ pub proof fn lemma_suffix_refl(s: Seq<u8>) ensures is_suffix(s, s) { assert(s.sk
 }
 pub use sfx::*;
 
-pub open spec fn be_u16_val(s: Seq<u8>) -> u16 { ((s[0] as u16) << 8) | (s[1] as u16) }
-pub open spec fn be_u32_val(s: Seq<u8>) -> u32 { ((s[0] as u32) << 24) | ((s[1] as u32) << 16) | ((s[2] as u32) << 8) | (s[3] as u32) }
-pub open spec fn be_u64_val(s: Seq<u8>) -> u64 {
-    ((s[0] as u64) << 56) | ((s[1] as u64) << 48) | ((s[2] as u64) << 40) | ((s[3] as u64) << 32)
-    | ((s[4] as u64) << 24) | ((s[5] as u64) << 16) | ((s[6] as u64) << 8) | (s[7] as u64)
-}
 pub uninterp spec fn f64_from_be(s: Seq<u8>) -> f64;
 
 #[verifier::external_body]
